@@ -92,8 +92,6 @@ active_provide_ids: Set[str] = set()
 
 @contextmanager
 def managed_provide_cache(provide_id: str) -> Generator[None, None, None]:
-    all_reference_ids_before = all_reference_ids.copy()
-
     def cache_cleanup() -> None:
         # Lastly, remove provided data from the cache that was generated during this run,
         # IF there are no more references to it.
@@ -113,8 +111,9 @@ def managed_provide_cache(provide_id: str) -> Generator[None, None, None]:
         active_provide_ids.discard(provide_id)
         # In case of an error in `Component.render()`, there may be some
         # references left hanging, so we remove them.
-        new_reference_ids = all_reference_ids - all_reference_ids_before
-        for reference_id in new_reference_ids:
+        # NOTE: Only the references to THIS `{% provide %}` tag. Other threads may be rendering
+        # at the same time, and their references are none of our business.
+        for reference_id in list(provide_references.get(provide_id, ())):
             unregister_provide_reference(reference_id)
 
         # Cleanup
@@ -151,13 +150,15 @@ def unregister_provide_reference(reference_id: str) -> None:
     all_reference_ids.remove(reference_id)
 
     for provide_id in list(provide_references.keys()):
-        if reference_id not in provide_references[provide_id]:
+        # NOTE: Other threads may add or remove entries of `provide_references` while we iterate
+        references = provide_references.get(provide_id)
+        if references is None or reference_id not in references:
             continue
 
-        provide_references[provide_id].remove(reference_id)
+        references.discard(reference_id)
 
         # There are no more references to the provided data, so we can delete it,
         # unless the `{% provide %}` tag is still rendering its body.
-        if not provide_references[provide_id] and provide_id not in active_provide_ids:
-            provide_cache.pop(provide_id)
-            provide_references.pop(provide_id)
+        if not references and provide_id not in active_provide_ids:
+            provide_cache.pop(provide_id, None)
+            provide_references.pop(provide_id, None)
